@@ -32,7 +32,7 @@ CLAIMED = {
          "Lean proof of the resolver model + differential correspondence"),
  "C20": ("proof", "Lean, over tables regenerated from the Go source each run: gating decision stated outright for every tool name (unknown tools denied), tables consistent (role table = dispatch switch = descriptor list), every mutating tool needs a flag and >= operate, code tables = spec.md, flags/principal off => no mutating tool, role monotone, list = allowed, audit on every outcome; tie: exhaustive enumeration of the real server (816 calls x 4 argument shapes + 24 lists) with config/db/foreign-file/audit observation", "§7 C20",
          "translator-regenerated Lean tables + decide-checked theorems + exhaustive enumeration of the real server"),
- "C12": ("proof", "Lean: every enqueue record of every model run satisfies C12.stepOK (admission iff below depth, drop_oldest accounting, refusal leaves queue unchanged); tie: admit-profile traces on memory and SQLite", "§7 C12",
+ "C12": ("proof", "Lean: every enqueue record of every model run satisfies C12.stepOK (admission iff below depth, drop_oldest accounting, refusal leaves queue unchanged); the SQLite admission count: over the depth-counter triggers REGENERATED from sqlite.go each run, for every table and every sequence of row events the counters equal the number of queued / leased rows, so queued+leased is the model's active count (counters_track, code_depth_is_active_count); tie: admit-profile traces on memory and SQLite, the counters read after every SQLite step and compared with the snapshot", "§7 C12",
          "Lean proof over the queue model + differential correspondence (memory, SQLite)"),
  "C13": ("proof", "Lean: the queue contract is a function of (state, op, choice) - deterministic, choice-free for all non-dequeue/non-evicting operations, dequeue count independent of the pick - and every record of every run satisfies the C02-C05/C12/C14 predicates, so two refinements agree modulo the free choices; tie: lock-step execution of the same generated Store-call history on memory and SQLite, each checked against its own model instance step by step AND compared directly (responses + full snapshots modulo generated lease ids) whenever the choice was forced", "§7 C13",
          "Lean determinism theorems + lock-step differential (memory vs SQLite vs model)"),
